@@ -363,6 +363,11 @@ func runProtocol(r *engine.Run) {
 	r.Bound("operations", fmt.Sprintf("%d per state (%d subjects x 10 string operations, 8 lastIndex assignments, freeze); depth: fixpoint", len(ops), len(protoSubjects(thorough))))
 }
 
+// maxProtoStates bounds the states of one configuration: the unchanged
+// implementation closes at a few dozen; a defect that makes lastIndex grow
+// without bound must not make the search diverge.
+const maxProtoStates = 200
+
 func exploreConfig(r *engine.Run, vm *otto.Otto, cfg protoConfig, ops []protoOp) {
 	pat := regex.ClassifyString(cfg.pattern)
 	if pat.Class != regex.Portable {
@@ -445,6 +450,10 @@ func exploreConfig(r *engine.Run, vm *otto.Otto, cfg protoConfig, ops []protoOp)
 				r.Mismatch(m)
 			}
 			if !seen[newSt.String()] {
+				if len(seen) >= maxProtoStates {
+					r.Cap(fmt.Sprintf("%s: more than %d distinct (lastIndex, writable) states; exploration of this configuration truncated", cfg.key(), maxProtoStates))
+					continue
+				}
 				seen[newSt.String()] = true
 				r.Tree(1, 0)
 				queue = append(queue, node{newSt, path})
